@@ -14,6 +14,10 @@
 (*   <<"nan", 0, "">> NaN; <<"x", 0, repr>> anything else (never equal to a specified value).   *)
 (*                                                                                            *)
 (* P-layer = the statement of C07.  A-layer = the code, case for case.  Verdicts: P-layer only. *)
+(* The A-layer follows the code after five repairs that this check prompted (fix: commits     *)
+(* 2cea00a idx_ranges switch, 406f9c3 first_of, 7ec91cb iter_slices mode, 0128ddf into_ranges  *)
+(* on empty tables, fecf384 in_ranges without ranges); the behaviour before them is kept as    *)
+(* OldUseNested / OldFirstOf / OldIterSlicesAsserts / OldALayer for the DesignOld* invariants.  *)
 EXTENDS Intervals
 
 V(r) == r[5]
